@@ -96,3 +96,41 @@ Definition c05_level_case (rg : option rgrid) (p : storage_p) (x : vec) (reporte
           vclose tol (map (fun t => level p n (rg_dt rg) x t) (seq 0 n)) (pick 0 reported (rg_I rg))
       end
   end.
+
+(* ---------- C19 ---------- *)
+Fixpoint list_eqb_nat (a b : list nat) : bool :=
+  match a, b with [] , [] => true | x :: a', y :: b' => Nat.eqb x y && list_eqb_nat a' b' | _, _ => false end.
+Fixpoint list_eqb_Z (a b : list Z) : bool :=
+  match a, b with [] , [] => true | x :: a', y :: b' => Z.eqb x y && list_eqb_Z a' b' | _, _ => false end.
+Definition c19_grid_case (g : grid) (tp : list Z) (dt Dt : vec) (I : list nat) : list bool :=
+  [ list_eqb_Z (g_tp g) tp; vclose tol (g_dt g) dt; vclose tol (g_Dt g) Dt; list_eqb_nat (g_I g) I ].
+Definition c19_window_case (r : option rgrid) (impl_ok : bool) (I : list nat) (tp : list Z) (dt Dt : vec)
+    (minor : option (list (list nat))) : list bool :=
+  match r with
+  | None => [negb impl_ok; true; true; true; true]
+  | Some r => [ impl_ok && list_eqb_nat (rg_I r) I; list_eqb_Z (rg_tp r) tp; vclose tol (rg_dt r) dt; vclose tol (rg_Dt r) Dt;
+                match rg_minor r, minor with
+                | None, None => true
+                | Some a, Some b => list_eqb list_eqb_nat a b
+                | _, _ => false end ]
+  end.
+Definition oq_close (a b : option Q) : bool :=
+  match a, b with Some x, Some y => qclose tol x y | None, None => true | _, _ => false end.
+Definition c19_ival_case (tp : list Z) (p : param) (impl : option (list (option Q))) : bool :=
+  match ivals_of p with
+  | None => false
+  | Some ivs =>
+      match values_to_grid tp ivs, impl with
+      | None, None => true
+      | Some a, Some b => list_eqb oq_close a b
+      | _, _ => false
+      end
+  end.
+
+(* ---------- scaled and structured assets ---------- *)
+From EAO Require Import Scaled.
+Definition build_scaled (name node0 : string) (minS maxS normS fixc : Q) (rg : option rgrid) (base : option aprob) : option aprob :=
+  obind rg (fun rg => obind base (scaled name node0 minS maxS normS fixc (qsumx (rg_dt rg)))).
+(* inner portfolio without nodal rows at the external nodes, then the wrapper's renaming *)
+Definition build_struct (g : grid) (name : string) (inner_nodes ext : list string) (aps : list (option aprob)) : option aprob :=
+  obind (seq_opts aps) (fun l => Some (struct_wrap name ext (portfolio inner_nodes ext (g_I g) l))).
